@@ -61,7 +61,7 @@ def gen(rng, tier, spec):
                 if nmod < 7:
                     # a third of the modifies pass a value-category aware rvalue functor (flag 1)
                     # flag 2: the modify is issued from a destructor while an unrelated exception unwinds
-                    fl = rng.weighted([(3, 0), (2, 1), (1, 2)])
+                    fl = rng.weighted([(3, 0), (2, 1), (1, 2), (2, 3)])   # 3: the functor returns a value (0 for even fids)
                     p.append([MODIFY, fids[nmod], fl] if fl else [MODIFY, fids[nmod]])
                     nmod += 1
             else:
@@ -117,6 +117,8 @@ def gen(rng, tier, spec):
     flags = []
     if rng.chance(1, 3):
         flags.append(-1)          # built from an rvalue payload with a destructive move
+    if rng.chance(1, 4):
+        flags.append(-4)          # Mutex = a mutex type with an overloaded lock()
     if rng.chance(1, 3):
         flags.append(-3)          # payload copy assignment throws part-way outside exception handlers
     if rng.chance(1, 3):
